@@ -13,6 +13,7 @@ the outcome after it: the name of the returned `Variable`, or `None` when the fa
 `generate_expr(..., exclude_var=True)` was taken (only `gen_variable` passes `exclude_var=True`, so a wrapper of
 `generate_expr` that marks the innermost open `gen_variable` frame identifies the branch exactly)."""
 import functools as _functools
+import os
 import resource
 import signal
 
@@ -39,6 +40,9 @@ class _Proxy:
 
 
 GENVAR_LIMIT = 250
+# decision points recorded for the models of lean/Heph/Model/Gen*.lean (caps per program, the totals are counted)
+GP_LIMITS = {"sig": 150, "fcr": 40, "fref": 40, "new": 50, "subclass": 25, "mcd": 20, "mcls": 40, "gmc": 30,
+             "post": 100, "ovr": 40, "call": 50}
 
 
 def _wrap_generator(state, G):
@@ -84,8 +88,440 @@ def _wrap_generator(state, G):
     def generate_expr(self, *a, **k):
         if k.get("exclude_var") and state["vstack"]:
             state["vstack"][-1]["fallback"] = True
-        return o_expr(self, *a, **k)
+        fs = state["fs"]
+        if fs and fs[-1].get("args") is not None:
+            # a direct child call of a recorded decision point: the expected type handed down
+            et = a[0] if a else k.get("expr_type")
+            fs[-1]["args"].append(_gp_add(state, et))
+        fs.append(_EXPR_FRAME)
+        try:
+            return o_expr(self, *a, **k)
+        finally:
+            fs.pop()
     gen_cls.gen_conditional, gen_cls.gen_variable, gen_cls.generate_expr = gen_conditional, gen_variable, generate_expr
+    if os.environ.get("C01_GP", "1") != "0":      # C01_GP=0: measure the cost of the decision-point recording
+        _wrap_genpoints(state, gen_cls)
+
+
+_EXPR_FRAME = {"k": "expr"}
+
+
+def _gp_add(state, t):
+    """index of `t` in the program's table of decision-point types (by value NOW: the generator mutates type
+    parameters later, so the identity memo of the table is dropped before every record)"""
+    return state["gp_tt"].add(t)
+
+
+def _merge(a, b):
+    """`a.update(b)` on a copy (the keys are type parameters, not strings)"""
+    m = dict(a or {})
+    m.update(b or {})
+    return m
+
+
+def _gp_fresh(state):
+    state["gp_tt"]._memo = {}
+
+
+def _gp_map(state, m):
+    """a TypeVarMap by value, insertion order; None when it is None or holds a None value"""
+    if m is None:
+        return None
+    out = []
+    for k, v in m.items():
+        if v is None:
+            return None
+        out.append([_gp_add(state, k), _gp_add(state, v)])
+    return out
+
+
+_GP_OFF = set(filter(None, os.environ.get("C01_GP_OFF", "").split(",")))
+
+
+def _gp_room(state, kind):
+    state["gp_n"][kind] = state["gp_n"].get(kind, 0) + 1
+    if kind in _GP_OFF:
+        return False
+    return len(state["gp"].setdefault(kind, [])) < GP_LIMITS[kind]
+
+
+def _gp_vars(state, gen):
+    vs = gen.context.get_vars(gen.namespace)
+    outer = list(gen.context.get_vars(gen.namespace[:-1]).values()) if gen._inside_java_lambda else []
+    return [{"name": v.name, "t": _gp_add(state, v.get_type()), "final": bool(getattr(v, "is_final", False)),
+             "outer": v in outer} for v in vs.values()]
+
+
+def _gp_attr(state, gen, attr, with_fn):
+    params = list(getattr(attr, "params", None) or [])
+    a = {"name": attr.name, "t": _gp_add(state, attr.get_type()),
+         "params": [_gp_add(state, p.get_type()) for p in params]}
+    if with_fn:
+        a["fn"] = _gp_add(state, gen.bt_factory.get_function_type(len(params)))
+    return a
+
+
+def _attr_mode(get_attr_type):
+    """which of the generator's two `get_attr_type` functions was passed: the default
+    `substitute_type(x.get_type(), y)` or the lambda of `_get_matching_objects`, which closes over `signature` and
+    `func_ref` and takes `.type_args[-1]` when `not signature and func_ref`"""
+    if get_attr_type is None:
+        return "whole"
+    code = get_attr_type.__code__
+    cells = dict(zip(code.co_freevars, [c.cell_contents for c in (get_attr_type.__closure__ or ())]))
+    if "func_ref" not in cells and "signature" not in cells:
+        return "whole"
+    return "last" if (not cells.get("signature") and cells.get("func_ref")) else "whole"
+
+
+def _wrap_genpoints(state, gen_cls):
+    names = ["_is_sigtype_compatible", "_gen_func_call_ref", "_get_matching_objects", "_gen_func_ref",
+             "_get_matching_function_declarations", "gen_new", "_get_subclass", "_get_matching_class_decls",
+             "_is_signature_compatible", "_get_matching_class", "_gen_matching_class", "_gen_func_from_existing",
+             "_gen_type_params_from_existing", "gen_func_decl", "_gen_func_call"]
+    orig = {n: getattr(gen_cls, n) for n in names}
+    state["gp_orig"] = orig
+    fs = state["fs"]
+
+    def _is_sigtype_compatible(self, attr, etype, type_var_map, check_signature, subtype, *rest, **kw):
+        rec = None
+        if _gp_room(state, "sig"):
+            _gp_fresh(state)
+            gat = rest[0] if rest else kw.get("get_attr_type")
+            m = _gp_map(state, type_var_map)
+            if m is not None and attr.get_type() is not None:
+                rec = {"attr": _gp_attr(state, self, attr, bool(check_signature)), "etype": _gp_add(state, etype),
+                       "m": m, "sig": bool(check_signature), "sub": bool(subtype), "mode": _attr_mode(gat)}
+            else:
+                state["gp_n"]["sig_skipped"] = state["gp_n"].get("sig_skipped", 0) + 1
+        try:
+            out = orig["_is_sigtype_compatible"](self, attr, etype, type_var_map, check_signature, subtype,
+                                                 *rest, **kw)
+        except Exception as e:
+            if rec is not None:
+                rec["out"] = type(e).__name__
+                state["gp"]["sig"].append(rec)
+            raise
+        if rec is not None:
+            rec["out"] = bool(out)
+            state["gp"]["sig"].append(rec)
+        return out
+
+    def _get_matching_objects(self, etype, subtype, attr_name, *rest, **kw):
+        top = fs[-1] if fs else None
+        fs.append(_EXPR_FRAME)
+        try:
+            objs = orig["_get_matching_objects"](self, etype, subtype, attr_name, *rest, **kw)
+        finally:
+            fs.pop()
+        if top is not None and top.get("k") == "fcr":
+            _gp_fresh(state)
+            top["objs"] = [{"t": _gp_add(state, o.attr_decl.get_type()), "name": o.attr_decl.name,
+                            "inst": _gp_map(state, o.receiver_inst)} for o in objs]
+        func_ref = rest[0] if rest else kw.get("func_ref", False)
+        signature = rest[1] if len(rest) > 1 else kw.get("signature", False)
+        for o in objs:
+            _post(self, "_get_matching_objects:" + attr_name, o.attr_decl, etype, o.receiver_inst,
+                  bool(signature and not func_ref), subtype, "last" if (not signature and func_ref) else "whole")
+        return objs
+
+    def _post(self, src, attr, etype, m, sig, sub, mode):
+        """a returned (attribute, maps): the condition the caller relies on, evaluated by the model"""
+        if not _gp_room(state, "post"):
+            return
+        _gp_fresh(state)
+        mm = _gp_map(state, m)
+        if mm is None or attr.get_type() is None:
+            return
+        state["gp"]["post"].append({"src": src, "attr": _gp_attr(state, self, attr, bool(sig)),
+                                    "etype": _gp_add(state, etype), "m": mm, "sig": bool(sig), "sub": bool(sub),
+                                    "mode": mode})
+
+    def _is_signature_compatible(self, attr, etype, check_signature, subtype):
+        top = fs[-1] if fs else None
+        out = orig["_is_signature_compatible"](self, attr, etype, check_signature, subtype)
+        if top is not None and top.get("k") == "mcd" and top["maps"] is not None:
+            is_comb, tvm = out
+            if tvm is None:
+                top["maps"].append(None)           # answered (False, None) before the compatibility test
+            else:
+                m = _gp_map(state, tvm)
+                if m is None:
+                    top["bad"] = True
+                top["maps"].append(m)
+        return out
+
+    def _get_matching_class_decls(self, etype, subtype, attr_name, signature=False):
+        top = fs[-1] if fs else None
+        rec = None
+        if _gp_room(state, "mcd"):
+            _gp_fresh(state)
+            classes = []
+            for c in self.context.get_classes(self.namespace).values():
+                attrs = []
+                for attr in self._get_class_attributes(c, attr_name):
+                    if not attr.get_type():
+                        attrs.append({"name": attr.name, "has_t": False})
+                    else:
+                        attrs.append(dict(_gp_attr(state, self, attr, bool(signature)), has_t=True))
+                classes.append({"name": c.name, "attrs": attrs})
+            rec = {"etype": _gp_add(state, etype), "void": _gp_add(state, self.bt_factory.get_void_type()),
+                   "sub": bool(subtype), "sig": bool(signature), "self": self.namespace[-1], "classes": classes,
+                   "attr_name": attr_name}
+        frame = {"k": "mcd", "maps": [] if rec is not None else None, "bad": False}
+        fs.append(frame)
+        try:
+            out = orig["_get_matching_class_decls"](self, etype, subtype=subtype, attr_name=attr_name,
+                                                    signature=signature)
+        finally:
+            fs.pop()
+        if rec is not None and not frame["bad"]:
+            rec["maps"] = frame["maps"]
+            rec["out"] = [[c.name, a.name, _gp_map(state, m)] for c, m, a in out]
+            if all(o[2] is not None for o in rec["out"]):
+                state["gp"]["mcd"].append(rec)
+        if top is not None and top.get("k") == "mcls":
+            top["cands"] = [[c.name, a.name] for c, m, a in out]
+        return out
+
+    def _get_matching_class(self, etype, subtype, attr_name, signature=False):
+        frame = {"k": "mcls", "cands": None}
+        fs.append(frame)
+        try:
+            out = orig["_get_matching_class"](self, etype, subtype=subtype, attr_name=attr_name, signature=signature)
+        finally:
+            fs.pop()
+        if _gp_room(state, "mcls") and frame["cands"] is not None:
+            state["gp"]["mcls"].append({
+                "cands": frame["cands"], "sub": bool(subtype), "sig": bool(signature), "attr_name": attr_name,
+                "out": None if out is None else [getattr(out.receiver_t, "name", None), out.attr_decl.name]})
+        if out is not None:
+            _post(self, "_get_matching_class:" + attr_name, out.attr_decl, etype,
+                  _merge(out.receiver_inst, out.attr_inst), bool(signature), subtype, "whole")
+        return out
+
+    def _gen_matching_class(self, etype, attr_name, not_void=False, signature=False):
+        fs.append(_EXPR_FRAME)
+        try:
+            out = orig["_gen_matching_class"](self, etype, attr_name, not_void=not_void, signature=signature)
+        finally:
+            fs.pop()
+        if _gp_room(state, "gmc"):
+            if out is None:
+                state["gp_n"]["gmc_none"] = state["gp_n"].get("gmc_none", 0) + 1
+            else:
+                _gp_fresh(state)
+                cls = self.context.get_classes(self.namespace).get(getattr(out.receiver_t, "name", None))
+                m = _gp_map(state, out.receiver_inst)
+                if cls is not None and m is not None:
+                    state["gp"]["gmc"].append({
+                        "attrs": [_gp_attr(state, self, a, bool(signature)) for a in getattr(cls, attr_name)],
+                        "etype": _gp_add(state, etype), "m": m, "sig": bool(signature), "attr_name": attr_name,
+                        "out": out.attr_decl.name})
+        return out
+
+    def _gen_func_call_ref(self, etype, only_leaves=False, subtype=False):
+        rec = None
+        if _gp_room(state, "fcr"):
+            _gp_fresh(state)
+            rec = {"vars": _gp_vars(state, self), "etype": _gp_add(state, etype), "sub": bool(subtype),
+                   "jl": bool(self._inside_java_lambda)}
+        frame = {"k": "fcr", "args": [] if rec is not None else None, "objs": None}
+        fs.append(frame)
+        try:
+            node = orig["_gen_func_call_ref"](self, etype, only_leaves, subtype)
+        finally:
+            fs.pop()
+        if rec is not None:
+            rec["objs"] = frame["objs"]          # None: `_get_matching_objects` was not reached
+            rec["out"] = None if node is None else {"name": node.func, "norecv": node.receiver is None,
+                                                    "args": frame["args"], "nargs": len(node.args),
+                                                    "ref": bool(node.is_ref_call)}
+            if not (rec["objs"] and any(o["inst"] is None for o in rec["objs"])):
+                state["gp"]["fcr"].append(rec)
+        return node
+
+    def _get_matching_function_declarations(self, etype, subtype, *rest, **kw):
+        top = fs[-1] if fs else None
+        fs.append(_EXPR_FRAME)
+        try:
+            funcs = orig["_get_matching_function_declarations"](self, etype, subtype, *rest, **kw)
+        finally:
+            fs.pop()
+        if top is not None and top.get("k") == "fref":
+            _gp_fresh(state)
+            top["funcs"] = [dict(_gp_attr(state, self, f.attr_decl, True),
+                                 m=_gp_map(state, _merge(f.receiver_inst, f.attr_inst)),
+                                 recv=getattr(f.receiver_expr, "name", None))
+                            for f in funcs]
+        if top is not None and top.get("k") == "call":
+            top["funcs"], top["was_empty"] = funcs, not funcs      # the list object: _gen_func_call appends to it
+        signature = rest[0] if rest else kw.get("signature", False)
+        for f in funcs:
+            if f.receiver_expr is None:          # the others were reported by _get_matching_objects
+                _post(self, "_get_matching_function_declarations", f.attr_decl, etype,
+                      _merge(f.receiver_inst, f.attr_inst), bool(signature), subtype, "whole")
+        return funcs
+
+    def _gen_func_ref(self, etype, only_leaves=False):
+        rec = None
+        if _gp_room(state, "fref"):
+            _gp_fresh(state)
+            rec = {"etype": _gp_add(state, etype), "self": self.namespace[-1]}
+        frame = {"k": "fref", "funcs": None}
+        fs.append(frame)
+        try:
+            node = orig["_gen_func_ref"](self, etype, only_leaves=only_leaves)
+        finally:
+            fs.pop()
+        if rec is not None and frame["funcs"] is not None and all(f["m"] is not None for f in frame["funcs"]):
+            _gp_fresh(state)
+            rec["funcs"] = frame["funcs"]
+            rec["out"] = None if node is None else {
+                "name": node.func, "recv": getattr(node.receiver, "name", None) if node.receiver is not None else None,
+                "recv_kind": type(node.receiver).__name__, "sig": _gp_add(state, node.signature)}
+            state["gp"]["fref"].append(rec)
+        return node
+
+    def _get_subclass(self, etype, subtype=True):
+        top = fs[-1] if fs else None
+        rec = None
+        if _gp_room(state, "subclass"):
+            _gp_fresh(state)
+            rec = {"etype": _gp_add(state, etype), "sub": bool(subtype),
+                   "tcon": _gp_add(state, getattr(etype, "t_constructor", None)),
+                   "ename": getattr(etype, "name", None),
+                   "classes": [{"name": c.name, "regular": c.class_type == c.REGULAR,
+                                "parameterized": bool(c.is_parameterized()), "t": _gp_add(state, c.get_type())}
+                               for c in self.context.get_classes(self.namespace).values()]}
+        cls = orig["_get_subclass"](self, etype, subtype)
+        if rec is not None:
+            rec["out"] = None if cls is None else cls.name
+            state["gp"]["subclass"].append(rec)
+        if top is not None and top.get("k") == "new":
+            top["cls"] = (cls,)
+        return cls
+
+    def gen_new(self, etype, only_leaves=False, subtype=True, sam_coercion=False):
+        rec = None
+        if _gp_room(state, "new"):
+            _gp_fresh(state)
+            fac = self.bt_factory
+            rec = {"etype": _gp_add(state, etype), "ename": getattr(etype, "name", None), "sub": bool(subtype),
+                   "sam": bool(sam_coercion),
+                   "any": _gp_add(state, fac.get_any_type()), "void": _gp_add(state, fac.get_void_type()),
+                   "black": sorted(self._blacklisted_classes), "tvnames": list(self._get_type_variable_names()),
+                   "depth": self.depth}
+        frame = {"k": "new", "args": [] if rec is not None else None, "cls": None, "insts": []}
+        fs.append(frame)
+        try:
+            node = orig["gen_new"](self, etype, only_leaves=only_leaves, subtype=subtype, sam_coercion=sam_coercion)
+        finally:
+            fs.pop()
+        if rec is not None:
+            _gp_fresh(state)
+            rec["reached_subclass"] = frame["cls"] is not None
+            cls = frame["cls"][0] if frame["cls"] else None
+            rec["cls"] = None if cls is None else {
+                "name": cls.name, "t": _gp_add(state, cls.get_type()),
+                "tparams": [_gp_add(state, p) for p in cls.type_parameters],
+                "fields": [_gp_add(state, f.get_type()) for f in cls.fields]}
+            rec["insts"] = [_gp_add(state, t) for t in frame["insts"]]
+            rec["args"] = frame["args"]
+            kind = type(node).__name__
+            rec["out"] = {"kind": kind}
+            if kind == "New":
+                rec["out"]["t"] = _gp_add(state, node.class_type)
+                rec["out"]["nargs"] = len(node.args)
+            elif kind == "BottomConstant":
+                rec["out"]["t"] = _gp_add(state, node.t)
+            state["gp"]["new"].append(rec)
+        return node
+
+    def _gen_type_params_from_existing(self, func, type_var_map):
+        top = fs[-1] if fs else None
+        out = orig["_gen_type_params_from_existing"](self, func, type_var_map)
+        if top is not None and top.get("k") == "ovr" and top["want"]:
+            type_params, renaming = out
+            top["tp"] = ([t.name for t in type_params], _gp_map(state, renaming))
+        return out
+
+    def gen_func_decl(self, *a, **k):
+        top = fs[-1] if fs else None
+        if top is not None and top.get("k") == "ovr" and top["want"] and top["decl"] is None:
+            # the signature handed over by _gen_func_from_existing (before gen_func_decl works on it)
+            top["decl"] = {"ret": _gp_add(state, k.get("etype")),
+                           "params": [_gp_add(state, p.get_type()) for p in (k.get("params") or [])],
+                           "tparams": [t.name for t in (k.get("type_params") or [])]}
+        fs.append(_EXPR_FRAME)
+        try:
+            return orig["gen_func_decl"](self, *a, **k)
+        finally:
+            fs.pop()
+
+    def _gen_func_from_existing(self, func, type_var_map, class_is_final, is_interface):
+        rec = None
+        if _gp_room(state, "ovr") and func.ret_type is not None:
+            _gp_fresh(state)
+            m = _gp_map(state, type_var_map)
+            if m is not None:
+                rec = {"params": [_gp_add(state, p.get_type()) for p in func.params],
+                       "ret": _gp_add(state, func.ret_type), "m": m, "generic": bool(func.type_parameters)}
+        frame = {"k": "ovr", "want": rec is not None, "tp": None, "decl": None}
+        fs.append(frame)
+        try:
+            out = orig["_gen_func_from_existing"](self, func, type_var_map, class_is_final, is_interface)
+        finally:
+            fs.pop()
+        if rec is not None and frame["tp"] is not None and frame["decl"] is not None and frame["tp"][1] is not None:
+            rec["tpnames"], rec["renaming"] = frame["tp"]
+            rec["out"] = frame["decl"]
+            state["gp"]["ovr"].append(rec)
+        return out
+
+    def _gen_func_call(self, etype, only_leaves=False, subtype=True):
+        want = _gp_room(state, "call")
+        frame = {"k": "call", "args": [] if want else None, "funcs": None, "was_empty": None}
+        fs.append(frame)
+        try:
+            node = orig["_gen_func_call"](self, etype, only_leaves, subtype)
+        finally:
+            fs.pop()
+        if want and frame["funcs"] is not None:
+            cands = [f for f in frame["funcs"] if f.attr_decl.name == node.func and f.receiver_expr is node.receiver]
+            if cands and all(c.attr_decl is cands[0].attr_decl and c.receiver_inst is cands[0].receiver_inst
+                             for c in cands):
+                f = cands[0]
+                _gp_fresh(state)
+                m = _gp_map(state, f.receiver_inst)       # params_map after `.update(func_type_map)`
+                args = list(frame["args"])
+                if frame["was_empty"] and node.receiver is not None:
+                    args = args[1:]                        # the receiver expression was generated first
+                if m is not None:
+                    state["gp"]["call"].append({
+                        "params": [{"t": _gp_add(state, p.get_type()), "vararg": bool(p.vararg)}
+                                   for p in f.attr_decl.params],
+                        "m": m, "args": args, "nargs": len(node.args), "created": bool(frame["was_empty"])})
+            else:
+                state["gp_n"]["call_ambiguous"] = state["gp_n"].get("call_ambiguous", 0) + 1
+        return node
+
+    loc = locals()
+    for n in names:
+        setattr(gen_cls, n, loc[n])
+
+    # the random instantiations made directly by gen_new are inputs of its model
+    import src.ir.type_utils as tu
+    o_inst = tu.instantiate_type_constructor
+    state["gp_orig_inst"] = o_inst
+
+    def instantiate_type_constructor(*a, **k):
+        top = fs[-1] if fs else None
+        out = o_inst(*a, **k)
+        if top is not None and top.get("k") == "new":
+            top["insts"].append(out[0])
+        return out
+    tu.instantiate_type_constructor = instantiate_type_constructor
 
 
 def _cpu():
@@ -109,6 +545,7 @@ def install(state, spec):
     G.functools = _Proxy(state)
     state["cstack"], state["vstack"], state["genvar"], state["genvar_n"] = [], [], [], 0
     state["gv_tt"] = export.TypeTable()
+    state["fs"], state["gp"], state["gp_n"], state["gp_tt"] = [], {}, {}, export.TypeTable()
     _wrap_generator(state, G)
 
 
@@ -124,7 +561,9 @@ def collect(state):
         folds.append(f)
     return {"tt": tt.entries, "folds": folds, "n": len(state.get("raw", [])),
             "genvar": state.get("genvar", []), "genvar_tt": state["gv_tt"].entries if "gv_tt" in state else [],
-            "genvar_n": state.get("genvar_n", 0), "cpu_s": round(_cpu() - state.get("cpu0", 0), 2)}
+            "genvar_n": state.get("genvar_n", 0), "cpu_s": round(_cpu() - state.get("cpu0", 0), 2),
+            "gp": state.get("gp", {}), "gp_n": state.get("gp_n", {}),
+            "gp_tt": state["gp_tt"].entries if "gp_tt" in state else []}
 
 
 def uninstall(state):
@@ -137,3 +576,8 @@ def uninstall(state):
     if "orig_methods" in state:
         gen_cls = G.Generator
         gen_cls.gen_conditional, gen_cls.gen_variable, gen_cls.generate_expr = state.pop("orig_methods")
+    for n, f in state.pop("gp_orig", {}).items():
+        setattr(G.Generator, n, f)
+    if "gp_orig_inst" in state:
+        import src.ir.type_utils as tu
+        tu.instantiate_type_constructor = state.pop("gp_orig_inst")
